@@ -19,12 +19,12 @@ CHECKS = {
         technique="TLC model checking of View.tla against SbeImage.tla (StepRefines, EncodeRefines, MarginsIntact) + replay of every encode transition into sbeppc-generated accessors",
         text="The operational layer (addresses derived from bytes read in the buffer) is model-checked against the denotational SBE image for every explored (schema, message, shape); "
              "every transition of the in-order encoding script is replayed on the real generated classes: pre-buffer injected, real header filler / setter / group header / data assignment (through every API form ViewEmit.tla DataForms lists: assign_range, assign, resize+set, push_back, insert, clear, assign_string, ...) called, whole region incl. margins compared.",
-        note="Scope: schema catalogue (tools/catalogue.py: all primitives, named/optional/array/enum/set/composite/ref/constant members, custom offsets, explicit blockLength, nested groups, data, 9 header layouts, LE+BE) x seeded shapes; trusts TLC, compilers, little-endian host.",
+        note="Scope: schema catalogue (tools/catalogue.py: all primitives, named/optional/array/enum/set/composite/ref/constant members, custom offsets, explicit blockLength, nested groups, data, 9 header layouts, LE+BE) + schemas BUILT by SchemaBuild.tla in TLC simulation (seeded; judged valid by Rules.tla) x seeded shapes; group headers also with counts at the limits of the numInGroup type (ViewEmit.tla BigFills); trusts TLC, compilers, little-endian host.",
         design="5/C01"),
     "C02": dict(
         category="model_checking",
         technique="TLC model checking of DecodeRefines (View.tla vs SbeImage.tla) + replay of every image through every generated getter",
-        text="SbeImage.tla is an independent encoder; every explored image is decoded by every getter (fields, composite members at any depth, arrays, enums, sets, group sizes, entries, data) of the real generated classes on a read-only, exact-size, guard-paged buffer and compared bit-exactly.",
+        text="SbeImage.tla is an independent encoder; every explored image is decoded by every getter (fields, composite members at any depth, arrays, enums, sets and every declared set choice, group sizes, entries, data) of the real generated classes on a read-only, exact-size, guard-paged buffer and compared bit-exactly.",
         note="Same scope as C01. Float/double values are opaque byte patterns (all-zero, all-ones, asymmetric), which covers NaN payload bit-exactness as byte equality.",
         design="5/C02"),
     "C03": dict(
@@ -42,7 +42,7 @@ CHECKS = {
     "C17": dict(
         category="model_checking",
         technique="TLC-emitted header-fill transitions over a header layout catalogue replayed into fill_message_header / fill_group_header",
-        text="fill_message_header / fill_group_header are steps of the encode script: for 9 header/dimension layouts (reordered, gaps, extra members, refs, uint8..64, counters) x 2 byte orders the bytes written (whole region incl. margins) and the returned header view are compared with the spec.",
+        text="fill_message_header / fill_group_header are steps of the encode script: for 9 header/dimension layouts (reordered, gaps, extra members, refs, uint8..64, counters) x 2 byte orders, the view catalogue and the schemas built by SchemaBuild.tla, the bytes written (whole region incl. margins) and the returned header view are compared with the spec; every group header additionally with numInGroup arguments at the limits of the numInGroup type (200, 255, 256, 300, 32767, 65536, 2^31, 2^32, 2^63+1, all-ones), through fill_group_header and through resize.",
         note="Same trusted base as C01.",
         design="5/C17"),
     "C04": dict(
@@ -113,7 +113,7 @@ CHECKS = {
     "C20": dict(
         category="fault_enumeration",
         technique="TLC model checking of Sbeppc.tla (process + I/O plan + single fault) + fault enumeration of the real sbeppc under an LD_PRELOAD shim, every run validated by SbeppcTrace.tla",
-        text="Every k-th mkdir/open/write (thorough: also close and input-file calls) of 3 schemas failing with ENOSPC/EACCES/EIO or writing short; trace (phase markers, syscalls, exit, diagnostic, on-disk state vs fault-free reference) validated against the spec; re-runs into fresh/populated/stale directories byte-identical.",
+        text="Every k-th mkdir/open/write/rename/unlink (thorough: also close and input-file calls) of 3 schemas failing with ENOSPC/EACCES/EIO or writing short; trace (phase markers, syscalls, exit, diagnostic, on-disk state vs fault-free reference) validated against the spec; re-runs into fresh/populated/stale directories and from differently spelled / differently long paths byte-identical (incl. a schema with many cross references). The model admits files written in place and files written under a temporary name and renamed into place (both strategies model-checked).",
         note="close() failures recorded, not alarmed (property does not list them). Shim interposes the libc calls libstdc++ makes on this system.",
         design="5/C20"),
     "C13": dict(
